@@ -37,7 +37,52 @@ fn node(a: Rc<LNode>, b: Rc<LNode>) -> Rc<LNode> {
     })
 }
 
-pub const SHAPES: [&str; 5] = ["chain", "left-comb", "right-comb", "balanced-tree", "spine-with-leaves"];
+pub const SHAPES: [&str; 7] = [
+    "chain",
+    "left-comb",
+    "right-comb",
+    "balanced-tree",
+    "spine-with-leaves",
+    "fan-out-destructor-released",
+    "fan-out-destructor-released-tight",
+];
+
+/// A node whose edges are released by its destructor (`pop_edges` takes none of them, which the
+/// trait allows): every released edge is one `decrement_strong` inside a running destruction.
+struct FNode {
+    kids: Vec<AtomicRc<FNode>>,
+}
+
+unsafe impl RcObject for FNode {
+    fn pop_edges(&mut self, _out: &mut Vec<Rc<Self>>) {}
+}
+
+impl Drop for FNode {
+    fn drop(&mut self) {
+        DROPS.fetch_add(1, Ordering::Relaxed);
+    }
+}
+
+/// root -> (n-1)/2 middle nodes -> one leaf each (+ one extra leaf under the root when n is even)
+fn build_fan(n: usize) -> Rc<FNode> {
+    let w = (n - 1) / 2;
+    let mut kids = Vec::with_capacity(w + 1);
+    for _ in 0..w {
+        let leaf = Rc::new(FNode { kids: Vec::new() });
+        kids.push(AtomicRc::from(Rc::new(FNode { kids: vec![AtomicRc::from(leaf)] })));
+    }
+    if 1 + 2 * w < n {
+        kids.push(AtomicRc::from(Rc::new(FNode { kids: Vec::new() })));
+    }
+    Rc::new(FNode { kids })
+}
+
+enum Head {
+    L(Rc<LNode>),
+    F(Rc<FNode>),
+}
+// handed from the building thread to the destroying one
+unsafe impl Send for Head {}
 
 /// Builds a structure of exactly `n` nodes iteratively (no recursion in the builder).
 fn build(shape: usize, n: usize) -> Rc<LNode> {
@@ -103,18 +148,31 @@ fn rounds(k: usize) {
     }
 }
 
-fn destroy(head: Rc<LNode>, n: usize) -> usize {
-    drop(head);
-    let max_rounds = 64 + 16 * (n / 1024 + 1);
+/// Rounds until all `n` nodes are destructed. The cascade shapes get a fixed budget; the fan-out
+/// shapes, whose every node is a deferred closure of its own (up to one bag per node when the
+/// thread's handle is already gone), run for as long as there is progress.
+fn finish(n: usize, fan: bool) -> usize {
+    let max_rounds = if fan { n + 64 } else { 64 + 16 * (n / 1024 + 1) };
     let mut used = 0;
-    while DROPS.load(Ordering::Relaxed) < n && used < max_rounds {
+    let mut idle = 0;
+    let mut last = DROPS.load(Ordering::Relaxed);
+    while last < n && used < max_rounds && idle < 64 {
         rounds(1);
         used += 1;
+        let now = DROPS.load(Ordering::Relaxed);
+        idle = if now == last { idle + 1 } else { 0 };
+        last = now;
     }
     used
 }
 
-struct AtExit(RefCell<Option<(Rc<LNode>, usize)>>);
+fn destroy(head: Head, n: usize) -> usize {
+    let fan = matches!(head, Head::F(_));
+    drop(head);
+    finish(n, fan)
+}
+
+struct AtExit(RefCell<Option<(Head, usize)>>);
 impl Drop for AtExit {
     fn drop(&mut self) {
         if let Some((head, n)) = self.0.borrow_mut().take() {
@@ -206,7 +264,7 @@ pub fn run_case(shape: usize, n: usize, stack_kib: usize, ctx: usize) -> i32 {
             .unwrap();
         cv::install(&COLLIDER);
         let work = move || {
-            destroy(head, n);
+            destroy(Head::L(head), n);
         };
         if stack_kib == 0 {
             work();
@@ -226,11 +284,17 @@ pub fn run_case(shape: usize, n: usize, stack_kib: usize, ctx: usize) -> i32 {
         // leave the Weaks alone: the process ends here
         return if d == n { 0 } else { 3 };
     }
+    if shape == 6 {
+        // a flush on every second decrement and four closures per bag: the same structure puts
+        // 16 times as many bags in flight
+        cv::set_manual_interval(2);
+        cv::set_bag_capacity(4);
+    }
     // build on a roomy thread, age the links, hand the head over
     let head = std::thread::Builder::new()
         .stack_size(64 << 20)
         .spawn(move || {
-            let h = build(shape, n);
+            let h = if shape >= 5 { Head::F(build_fan(n)) } else { Head::L(build(shape, n)) };
             rounds(6);
             h
         })
@@ -265,12 +329,7 @@ pub fn run_case(shape: usize, n: usize, stack_kib: usize, ctx: usize) -> i32 {
         }
     }
     // whatever the exiting thread left behind is finished by this one
-    let mut used = 0;
-    let max_rounds = 64 + 16 * (n / 1024 + 1);
-    while DROPS.load(Ordering::Relaxed) < n && used < max_rounds {
-        rounds(1);
-        used += 1;
-    }
+    finish(n, shape >= 5);
     let d = DROPS.load(Ordering::Relaxed);
     println!("DESTRUCTED {} of {}", d, n);
     if d == n {
